@@ -125,8 +125,10 @@ Section Reck.
 
   (* constructor validation: is_number first (TypeError), then max < min (ValueError) *)
   Inductive pyval : Type := PNum (x : K) | PNone | PBad.
-  Definition mk_const (v : pyval) (g : rng) : res dobj :=
-    match v with PNum x => Ok (mkDobj (DConst x) g) | _ => Err TypeError end.
+  (* a Constant has no generator: its [d_rng] is a fixed placeholder *)
+  Definition norng : rng := mkRng (Entropy 0) 0.
+  Definition mk_const (v : pyval) : res dobj :=
+    match v with PNum x => Ok (mkDobj (DConst x) norng) | _ => Err TypeError end.
   Definition mk_tophat (lo hi : pyval) (g : rng) : res dobj :=
     match lo, hi with
     | PNum a, PNum b => if kltb b a then Err ValueError else Ok (mkDobj (DTopHat a b) g)
